@@ -3,6 +3,7 @@ package tcp
 import (
 	"context"
 	"crypto/tls"
+	"errors"
 	"net"
 	"sync"
 	"time"
@@ -150,6 +151,16 @@ func (c *conn) Write(b []byte) (int, error) {
 
 func (c *conn) Close() error {
 	return c.c.Close()
+}
+
+// CloseWrite closes the write side of the connection so that the tunnel can
+// pass the end of the upstream's data on to the client and still deliver
+// what the client sends.
+func (c *conn) CloseWrite() error {
+	if cw, ok := c.c.(interface{ CloseWrite() error }); ok {
+		return cw.CloseWrite()
+	}
+	return errors.New("tcp: connection cannot be closed for writing only")
 }
 
 func (c *conn) LocalAddr() net.Addr {
